@@ -11,16 +11,20 @@ func (vt *Model) handleMouse(msg vaxis.Mouse) string {
 	if !vt.mode.mouseButtons && !vt.mode.mouseDrag && !vt.mode.mouseMotion {
 		if vt.mode.altScroll && vt.mode.smcup {
 			// Translate wheel motion into arrows up and down
-			// 3x rows
+			// 3x rows, in the form the cursor key mode selects
+			arrows := cursorKeysNormalMode
+			if vt.mode.decckm {
+				arrows = cursorKeysApplicationMode
+			}
 			if msg.Button == vaxis.MouseWheelUp {
-				vt.pty.WriteString("\x1bOA")
-				vt.pty.WriteString("\x1bOA")
-				vt.pty.WriteString("\x1bOA")
+				vt.pty.WriteString(arrows[vaxis.KeyUp])
+				vt.pty.WriteString(arrows[vaxis.KeyUp])
+				vt.pty.WriteString(arrows[vaxis.KeyUp])
 			}
 			if msg.Button == vaxis.MouseWheelDown {
-				vt.pty.WriteString("\x1bOB")
-				vt.pty.WriteString("\x1bOB")
-				vt.pty.WriteString("\x1bOB")
+				vt.pty.WriteString(arrows[vaxis.KeyDown])
+				vt.pty.WriteString(arrows[vaxis.KeyDown])
+				vt.pty.WriteString(arrows[vaxis.KeyDown])
 			}
 		}
 		return ""
